@@ -76,7 +76,7 @@ inline RunResult run_forked(Engine &e,const J &plan,int timeout_s = 40){   // a 
 	if(pid == 0){
 		close(pfd[0]); g_in_child = true; g_result_fd = pfd[1];
 		if(!getenv("SIMK_KEEP_STDERR")){ int ef = open(errf.c_str(),O_WRONLY|O_CREAT|O_TRUNC,0600); if(ef >= 0){ dup2(ef,2); close(ef); } }
-		alarm(timeout_s);
+		alarm(getenv("VERIF_RUN_TIMEOUT") ? atoi(getenv("VERIF_RUN_TIMEOUT")) : timeout_s);
 		RunResult r;
 		try { r = e.run(plan); }
 		catch(std::exception const &ex){ r.fail("harness-exception",ex.what()); }
